@@ -30,7 +30,7 @@ def run(ctx):
                 bad.append("%s at %s" % (n.get("decl"), n.get("loc")))
     res.check(not st and not bad, "C10-R3", "encoder:statics", m.rec["loc"], "%d encoder methods reference no mutable static" % len(m.methods),
               "encoder uses mutable static state: %s" % (bad + [s["name"] for s in st])[:4])
-    E.rule_counter_writers(res, "C10-R4", m)
+    E.rule_counter_writers(res, "C10-R4", m, reported=False)
     E.rule_frame_stamped(res, "C10-R4", m)
     res.floor("C10-R4", 4)
     res.floor("C10-R1", 9)
